@@ -1,13 +1,177 @@
-/- Driver for the handler engine (ops whose name starts with `h`). -/
+/- Driver for the handler engine (ops whose name starts with `h`).
+
+Term syntax (no spaces inside a term):
+  addr  `4:n` | `6:n`            na    `id@addr`
+  rec   `R:id:seq:u4:u6` (`-` = absent) | `none`
+  key   `K:eph:cd:ini:rcp:t|f`   sig   `S:signer:cd:eph:dst`
+  rb    `nodes/total/rec;rec…` (`-` = no records) | `other/code`
+  msg   `req/rid/body` | `resp/rid/RB` | `undec`
+  ct    `E[key|nonce|msg|ok|bad]` | `G`
+  pkt   `M~src~nonce~ct` | `W~nonce~cd~seq` | `H~src~nonce~sig~eph~rec~ct`
+-/
 import Driver.Common
+import Discv5Model.Model.Handler
 namespace Discv5.Driver
+open Discv5.H
 
 structure HandlerSt where
-  dummy : Unit := ()
+  nodes : List (Nat × Cfg × HState) := []
 
-/-- One op of the handler engine: full token list (op name first) → new state and reply line. -/
+def pAddr (s : String) : Addr :=
+  match s.splitOn ":" with
+  | [v, n] => { v6 := v == "6", n := nat! n }
+  | _ => default
+
+def sAddr (a : Addr) : String := s!"{if a.v6 then "6" else "4"}:{a.n}"
+
+def pNA (s : String) : NA :=
+  match s.splitOn "@" with
+  | [i, a] => { id := nat! i, addr := pAddr a }
+  | _ => default
+
+def sNA (na : NA) : String := s!"{na.id}@{sAddr na.addr}"
+
+def pOptNat (s : String) : Option Nat := if s == "-" then none else some (nat! s)
+def sOptNat : Option Nat → String
+  | none => "-" | some n => toString n
+
+def pRec (s : String) : Option Rec :=
+  match s.splitOn ":" with
+  | ["R", i, q, a, b] => some { id := nat! i, seq := nat! q, udp4 := pOptNat a, udp6 := pOptNat b }
+  | _ => none
+
+def sRec (r : Rec) : String := s!"R:{r.id}:{r.seq}:{sOptNat r.udp4}:{sOptNat r.udp6}"
+def sOptRec : Option Rec → String
+  | none => "none" | some r => sRec r
+
+def pKey (s : String) : Key :=
+  match s.splitOn ":" with
+  | ["K", e, c, i, r, t] => { eph := nat! e, cd := nat! c, ini := nat! i, rcp := nat! r, toRcp := t == "t" }
+  | _ => default
+
+def sKey (k : Key) : String := s!"K:{k.eph}:{k.cd}:{k.ini}:{k.rcp}:{if k.toRcp then "t" else "f"}"
+
+def pSig (s : String) : Sig :=
+  match s.splitOn ":" with
+  | ["S", a, c, e, d] => { signer := nat! a, cd := nat! c, eph := nat! e, dst := nat! d }
+  | _ => default
+
+def sSig (g : Sig) : String := s!"S:{g.signer}:{g.cd}:{g.eph}:{g.dst}"
+
+def pRB (parts : List String) : RespBody :=
+  match parts with
+  | ["nodes", total, recs] =>
+    .nodes (nat! total) (if recs == "-" then [] else (recs.splitOn ";").filterMap pRec)
+  | ["other", code] => .other (nat! code)
+  | _ => .other 0
+
+def sRB : RespBody → String
+  | .nodes total recs =>
+    s!"nodes/{total}/{if recs.isEmpty then "-" else ";".intercalate (recs.map sRec)}"
+  | .other code => s!"other/{code}"
+
+def pMsg (s : String) : Msg :=
+  match s.splitOn "/" with
+  | ["req", rid, body] => .request (nat! rid) (nat! body)
+  | "resp" :: rid :: rb => .response (nat! rid) (pRB rb)
+  | _ => .undecodable
+
+def sMsg : Msg → String
+  | .request rid body => s!"req/{rid}/{body}"
+  | .response rid rb => s!"resp/{rid}/{sRB rb}"
+  | .undecodable => "undec"
+
+def pCt (s : String) : Ct :=
+  if s == "G" then .garbage else
+  let inner := ((s.drop 2).toString.dropEnd 1).toString
+  match inner.splitOn "|" with
+  | [k, n, m, ok] => .enc (pKey k) (nat! n) (pMsg m) (ok == "ok")
+  | _ => .garbage
+
+def sCt : Ct → String
+  | .garbage => "G"
+  | .enc k n m ok => s!"E[{sKey k}|{n}|{sMsg m}|{if ok then "ok" else "bad"}]"
+
+def pPkt (s : String) : Option Pkt :=
+  match s.splitOn "~" with
+  | ["M", src, n, ct] => some (.message (nat! src) (nat! n) (pCt ct))
+  | ["W", n, cd, q] => some (.whoareyou (nat! n) (nat! cd) (nat! q))
+  | ["H", src, n, sig, eph, r, ct] =>
+    some (.handshake (nat! src) (nat! n) (pSig sig) (nat! eph) (pRec r) (pCt ct))
+  | _ => none
+
+def sPkt : Pkt → String
+  | .message src n ct => s!"M~{src}~{n}~{sCt ct}"
+  | .whoareyou n cd q => s!"W~{n}~{cd}~{q}"
+  | .handshake src n sig eph r ct => s!"H~{src}~{n}~{sSig sig}~{eph}~{sOptRec r}~{sCt ct}"
+
+def sErr : Err → String
+  | .timeout => "timeout" | .invalidRemotePacket => "invalid-packet"
+  | .invalidRemoteEnr => "invalid-enr" | .selfRequest => "self"
+
+def sOut : Out → String
+  | .established r a o => s!"est>{sRec r}>{sAddr a}>{if o then "o" else "i"}"
+  | .request na rid body => s!"req>{sNA na}>{rid}>{body}"
+  | .response na rid rb => s!"rsp>{sNA na}>{rid}>{sRB rb}"
+  | .wru na n => s!"wru>{sNA na}>{n}"
+  | .failed rid e => s!"fail>{rid}>{sErr e}"
+  | .unverifiable r a i => s!"unv>{sRec r}>{sAddr a}>{i}"
+  | .expired nas => s!"exp>{",".intercalate (nas.map sNA)}"
+  | .send na p => s!"snd>{sNA na}>{sPkt p}"
+
+def sExempt (l : List (Addr × Nat)) : String :=
+  let items := l.map fun (a, n) => s!"{sAddr a}={n}"
+  let sorted := items.toArray.qsort (· < ·) |>.toList
+  if sorted.isEmpty then "-" else ",".intercalate sorted
+
+def pEv (toks : List String) : Option Ev :=
+  match toks with
+  | ["appreq", na, r, rid, body] =>
+    some (.appRequest { na := pNA na, record := pRec r } (nat! rid) (nat! body))
+  | ["appresp", na, rid, rb] => some (.appResponse (pNA na) (nat! rid) (pRB (rb.splitOn "/")))
+  | ["appwru", na, n, r] => some (.appWru (pNA na) (nat! n) (pRec r))
+  | ["dgram", a, p] => (pPkt p).map (.dgram (pAddr a))
+  | ["adv", dt] => some (.adv (nat! dt))
+  | ["rtadv", dt] => some (.rtAdv (nat! dt))
+  | _ => none
+
+def hOne (st : HandlerSt) (toks : List String) : HandlerSt × String :=
+  match toks with
+  | ["hnew", node, localSeq, retries, timeout, ttl, cap, fn0, listen, u4, u6] =>
+    let id := nat! node
+    let cfg : Cfg := {
+      localId := id, localSeq := nat! localSeq,
+      localRec := { id := id, seq := nat! localSeq, udp4 := pOptNat u4, udp6 := pOptNat u6 },
+      requestRetries := nat! retries, requestTimeout := nat! timeout, sessionTtl := nat! ttl,
+      sessionCap := nat! cap, listen := if listen == "-" then [] else (listen.splitOn ",").map pAddr,
+      findnode0 := nat! fn0 }
+    ({ nodes := st.nodes.filter (·.1 != id) ++ [(id, cfg, {})] }, "ok")
+  | "hev" :: node :: rest =>
+    let id := nat! node
+    match st.nodes.find? (·.1 == id), pEv rest with
+    | some (_, cfg, s), some ev =>
+      let (s', outs) := step cfg s ev
+      let o := if outs.isEmpty then "-" else " ".intercalate (outs.map sOut)
+      ({ nodes := st.nodes.map fun e => if e.1 == id then (id, cfg, s') else e },
+        s!"{o} ## {sExempt s'.exempt}")
+    | _, _ => (st, "bad-op")
+  | _ => (st, "bad-op")
+
+/-- Splits a token list at `;;` separators. -/
+def splitMulti (toks : List String) : List (List String) :=
+  let (cur, acc) := toks.foldl (fun (p : List String × List (List String)) t =>
+    if t == ";;" then ([], p.2 ++ [p.1]) else (p.1 ++ [t], p.2)) ([], [])
+  acc ++ [cur]
+
 def handlerStep (st : HandlerSt) (toks : List String) : HandlerSt × String :=
   match toks with
-  | _ => (st, "bad-op")
+  | "hmulti" :: rest =>
+    let (st', outs) := (splitMulti rest).foldl (fun (p : HandlerSt × List String) ts =>
+      if ts.isEmpty then p else
+      let (s, o) := hOne p.1 ts
+      (s, p.2 ++ [o])) (st, [])
+    (st', if outs.isEmpty then "-" else " ;; ".intercalate outs)
+  | "hnop" :: _ => (st, "-")
+  | _ => hOne st toks
 
 end Discv5.Driver
